@@ -148,6 +148,12 @@ func findGoFiles(cwd, path string) (_ []sourcePath, err error) {
 
 	var relativeTo string // empty if path was absolute
 	if !filepath.IsAbs(path) {
+		// The working directory may have been entered through a
+		// symbolic link, and os.Getwd reports it under that name. It is
+		// a directory all the same: walk it, not the link to it.
+		if resolved, err := filepath.EvalSymlinks(cwd); err == nil {
+			cwd = resolved
+		}
 		relativeTo = cwd
 		path = filepath.Join(relativeTo, path)
 	} else {
